@@ -210,6 +210,8 @@ theorem C04_c_serialize_in_bounds (cs : Bool) (m : Msg) (o : MObj) (capBytes : N
         simp only [Msg.fields] at hcmp hmax
         simp only [msgMax] at hc
         have e := sumMax_congr (l := fs) hmax
+        have := le_pad8 (sumMax fieldMax fs)
+        rw [padEnd_isOob]
         exact (serFields_safe cs (8 * capBytes) fs vs 0 hcmp (by omega)).notOob
       | union _ _ => simp [Out.isOob]
     | union tb tc fs =>
@@ -219,6 +221,7 @@ theorem C04_c_serialize_in_bounds (cs : Bool) (m : Msg) (o : MObj) (capBytes : N
         simp only [Msg.fields] at hcmp hmax
         simp only [msgMax] at hc
         simp only
+        have hp := le_pad8 (tb + maxMax fieldMax fs)
         rw [write_none (by omega)]
         simp only
         cases hf : nth? fs tag with
@@ -230,6 +233,7 @@ theorem C04_c_serialize_in_bounds (cs : Bool) (m : Msg) (o : MObj) (capBytes : N
             simp only
             have hm := nth?_mem hf
             have := le_maxMax fieldMax hm
+            rw [padEnd_isOob]
             exact (serField_safe cs (8 * capBytes) tb f v (hcmp f hm) (by rw [hmax f hm]; omega)).notOob
 
 /-- The capacity-override option, object side.  When the emitted length comparison uses the capacity of the array
@@ -240,11 +244,13 @@ theorem C04_c_serialize_override_never_leaves_object (checkCap : Bool) (m : Msg)
   unfold ser
   by_cases hc : (checkCap && decide (8 * capBytes < msgMax fieldMax m)) = true
   · simp [hc, Out.isOobObject]
-  · simp only [hc]
+  · simp only [hc, Bool.false_eq_true, ↓reduceIte]
     cases m with
     | struct fs =>
       cases o with
-      | struct vs => exact serFields_noObj true (8 * capBytes) fs vs 0 fun f _ => okCmp_storage f
+      | struct vs =>
+        rw [padEnd_isOobObject]
+        exact serFields_noObj true (8 * capBytes) fs vs 0 fun f _ => okCmp_storage f
       | union _ _ => rfl
     | union tb tc fs =>
       cases o with
@@ -260,7 +266,10 @@ theorem C04_c_serialize_override_never_leaves_object (checkCap : Bool) (m : Msg)
           | some f =>
             cases hv : nth? vs tag with
             | none => rfl
-            | some v => exact serField_noObj true (8 * capBytes) tb f v (okCmp_storage f)
+            | some v =>
+              simp only
+              rw [padEnd_isOobObject]
+              exact serField_noObj true (8 * capBytes) tb f v (okCmp_storage f)
 
 /-- The capacity-override option, buffer side: with the capacity check compiled out the per-primitive checks protect
     only what is written through the checked setter; everything is in bounds exactly under the user's obligation
@@ -274,6 +283,8 @@ theorem C04_c_serialize_override_buffer_condition (m : Msg) (o : MObj) (capBytes
     cases o with
     | struct vs =>
       simp only [msgMax] at hbuf
+      have := le_pad8 (sumMax (fieldMaxB true) fs)
+      rw [padEnd_isOob]
       exact (serFields_safe true (8 * capBytes) fs vs 0 (fun f _ => okCmp_storage f) (by omega)).notOob
     | union _ _ => rfl
   | union tb tc fs =>
@@ -282,6 +293,7 @@ theorem C04_c_serialize_override_buffer_condition (m : Msg) (o : MObj) (capBytes
     | union tag vs =>
       simp only [msgMax] at hbuf
       simp only
+      have hp := le_pad8 (tb + maxMax (fieldMaxB true) fs)
       rw [write_none (by omega)]
       simp only
       cases hf : nth? fs tag with
@@ -292,6 +304,7 @@ theorem C04_c_serialize_override_buffer_condition (m : Msg) (o : MObj) (capBytes
         | some v =>
           simp only
           have := le_maxMax (fieldMaxB true) (nth?_mem hf)
+          rw [padEnd_isOob]
           exact (serField_safe true (8 * capBytes) tb f v (okCmp_storage f) (by omega)).notOob
 
 /-- Deserialization never writes outside the object, for every input (`rd` is any content of any buffer, size 0
